@@ -4,5 +4,20 @@ add("C01", "exploration",
     "Trusts the generators' reach (class histogram in evidence), a test-double linkifier, and CPython itself; hangs are decided by a deterministic call budget.",
     "property-based testing (Hypothesis, constructive Markdown grammar + corpus mutation) + bounded-exhaustive enumeration; oracle: totality (no exception / call budget)",
     "DESIGN.md section 4, C01")
+add("C02", "exploration",
+    "Generated (document x configuration) search; every stream returned by parse and parseInline is checked, recursively through inline and image children, against a validity predicate (bracket discipline with kind/tag/markup match, level == depth, block flags, children placement, no adjacent text, closed token vocabulary) and fed to SyntaxTreeNode.",
+    "Trusts the oracle's reading of the statement (parseInline's synthetic wrapper token is exempt from the block flag); a test-double linkifier.",
+    "property-based testing (Hypothesis; inline-rich constructive generators incl. dense delimiter/bracket nests); oracle: validity predicate over the token stream + tree construction",
+    "DESIGN.md section 4, C02")
+add("C03", "exploration",
+    "Generated (document x block-rule configuration) search; every mapped token is checked for range, non-blank start (and end where stated), containment in the enclosing map, sibling order and, for inline containers, that the content sits on the mapped lines; every non-blank line must be covered by a top-level map or a recorded reference definition.",
+    "Blank = only spaces/tabs; for nested tokens the start-line test is the weaker 'holds a non-blank character'; lines of a paragraph map that hold no content may consist of characters str.strip() removes (the paragraph rule strips them).",
+    "property-based testing (Hypothesis; documents with tabs, CR/CRLF, NUL, truncation); oracle: geometric validity predicate on maps + coverage",
+    "DESIGN.md section 4, C03")
+add("C04", "exploration",
+    "Generated (document x configuration with html off) search incl. payload templates aimed at every output sink; the rendered output of render and renderInline must be accepted by a strict lexer/parser of the renderer's own output language (fixed elements, per-element attributes, escaped text and values, void spelling per xhtmlOut, balanced nesting).",
+    "Default renderer, no highlight callback; test-double linkifier; the core 'inline' step is additionally switched off in a small share of cases (raw content then reaches the renderer).",
+    "property-based testing (Hypothesis; sink-directed payload templates + general generators); oracle: strict grammar of the output language",
+    "DESIGN.md section 4, C04")
 ALL = ["C%02d" % i for i in range(1, 21)]
 NA = [{"property_id": p, "reason": "check under construction in this round; not claimed until its oracle is built and shown quiet on the unchanged tree"} for p in ALL if p not in CHECKS]
